@@ -284,6 +284,12 @@ def r157(repo, ctx):
     # the loop that recomputes the midpoint  mid = (lo + hi) / 2  names the bracket ends
     loops = [l for l in ast.walk(f) if isinstance(l, (ast.While, ast.For)) and any(mid_binding(st) for st in ast.walk(l))]
     if not loops and any(mid_binding(st) for st in ast.walk(f)) and any(isinstance(l, (ast.While, ast.For)) for l in ast.walk(f)):
+        mid_names = {mid_binding(st)[0] for st in ast.walk(f) if mid_binding(st)}
+        rebound = [st for l in ast.walk(f) if isinstance(l, (ast.While, ast.For)) for st in ast.walk(l)
+                   if isinstance(st, ast.Assign) and any(isinstance(t, ast.Name) and t.id in mid_names for t in st.targets)]
+        if rebound:
+            ctx.undecided('R15.7', SF, q, rebound[0], f'the tested point is rebound inside the loop from {U.src(rebound[0].value)[:50]}, which is not a closed midpoint formula of two local bracket ends')
+            return
         ctx.violation('R15.7', SF, q, f, 'the midpoint is bound before the search loop but never recomputed inside it: the bracket ends move while the point that is tested stays where it was',
                       construct='_findRcrit: bracket update')
         return
